@@ -17,6 +17,7 @@ type Result struct {
 	Instances    int
 	KnownFailing int
 	Violations   int
+	Replayed     int
 	Undecided    []string
 	Vacuity      []string
 	Reports      []*FuncReport
@@ -147,11 +148,22 @@ func aggregate(prop string, cfg PropConfig, reports []*FuncReport, known []Known
 				continue
 			}
 			res.Violations++
-			path := writeReplay(prop, o, worst, status, outDir)
+			path, doc := writeReplay(prop, o, worst, status, outDir)
 			suffix := " no-failing-input-found"
-			if replayed := tryReplay(prop, o, worst, path, verif); replayed {
-				suffix = ""
+			// prefer an instance that has a model
+			cand := worst
+			for _, in := range o.Instances {
+				if in.Result == "failed" && in.File != "" {
+					cand = in
+					break
+				}
 			}
+			if os.Getenv("GOVC_NO_REPLAY") == "" && tryReplay(prop, o, cand, path, verif, rep.replay, doc) {
+				suffix = ""
+				res.Replayed++
+			}
+			b, _ := json.MarshalIndent(doc, "", " ")
+			writeFile(path, string(b))
 			res.Lines = append(res.Lines, fmt.Sprintf("VIOLATION property=%s replay=%s%s", prop, path, suffix))
 			res.Lines = append(res.Lines, fmt.Sprintf("  obligation %s (%s) %s at %s", o.Name, o.Kind, status, worst.Where))
 		}
@@ -208,7 +220,7 @@ func findKnown(known []KnownFinding, oname string) *KnownFinding {
 	return nil
 }
 
-func writeReplay(prop string, o *Oblig, in *ObligInstance, status, outDir string) string {
+func writeReplay(prop string, o *Oblig, in *ObligInstance, status, outDir string) (string, map[string]any) {
 	path := filepath.Join(outDir, "replay", sanitize(o.Name)+".json")
 	doc := map[string]any{
 		"property":   prop,
@@ -229,7 +241,7 @@ func writeReplay(prop string, o *Oblig, in *ObligInstance, status, outDir string
 	}
 	b, _ := json.MarshalIndent(doc, "", " ")
 	writeFile(path, string(b))
-	return path
+	return path, doc
 }
 
 func writeEvidence(verif, prop string, cfg PropConfig, res *Result, P *Program) error {
